@@ -2,6 +2,7 @@
 from engine import *
 import ordimpls
 import provenance
+import guards
 import mutations
 import accessors
 
@@ -745,3 +746,4 @@ RULES.append(('17.t', 'identity comparisons: every reviewed (function, identity 
 RULES.append(('17.P', 'panic sites: no reviewed function that parses / handles untrusted input gained an unwrap / expect / explicit panic / bounds-checked index / length-checked copy / division (rules/provenance.py; panic freedom itself is not decided)', lambda F: provenance.panics_for_property(F, 'C17', '17.P')))
 RULES.append(('17.M', 'collection mutations: every reviewed (function, stored collection, mutator class: add / remove / filter / empty / swap / order) triple is still present - an entry that is no longer removed, inserted or drained on one path (rules/mutations.py)', lambda F: mutations.for_property(F, 'C17', '17.M')))
 RULES.append(('17.A', 'enum accessors agree across sibling variants: an accessor that returns the payload field `x` for one variant returns it for every variant whose payload carries a field of that name and type (a variant moved to the `=> None` arm) - rules/accessors.py', lambda F: accessors.for_property(F, 'C17', '17.A')))
+RULES.append(('17.G', 'guard census: no reviewed call of a workspace function and no reviewed mutation of a stored collection gained a controlling branch condition (an added `&& cond`, early return / continue, more specific match arm in front of an act); counts per call site, name free (rules/guards.py)', lambda F: guards.for_property(F, 'C17', '17.G')))
